@@ -61,3 +61,35 @@ def ncpu() -> int:
         return int(os.environ.get("VERIF_JOBS", "0")) or len(os.sched_getaffinity(0))
     except (AttributeError, ValueError):
         return os.cpu_count() or 1
+
+
+class CaseTimeout(BaseException):
+    """one case of a check ran longer than its deadline: the code under test does not terminate on it"""
+
+
+class deadline:  # noqa: N801
+    """with deadline(20): ...   raises CaseTimeout inside the block after that many seconds of wall time (main thread only;
+    a pure-Python loop is interrupted at the next bytecode boundary).  A BaseException so that ``except Exception`` in the
+    code under test cannot swallow it."""
+
+    def __init__(self, seconds):
+        self.seconds = seconds
+
+    def _fire(self, signum, frame):
+        raise CaseTimeout(f"no result within {self.seconds} s")
+
+    def __enter__(self):
+        import signal
+        import threading
+        self.active = threading.current_thread() is threading.main_thread()
+        if self.active:
+            self.old = signal.signal(signal.SIGALRM, self._fire)
+            signal.setitimer(signal.ITIMER_REAL, self.seconds)
+        return self
+
+    def __exit__(self, *exc):
+        import signal
+        if self.active:
+            signal.setitimer(signal.ITIMER_REAL, 0)
+            signal.signal(signal.SIGALRM, self.old)
+        return False
